@@ -15,11 +15,16 @@ namespace GLua.FileSpec
 
 abbrev Bytes := List UInt8
 
-/-- read formats (`*n` is outside the model: trusted `fmt.Fscanf`). -/
+/-- read formats.  `count n`, `line` = "*l", `all` = "*a", `num` = "*n"; `str s` = any other string given as a
+    format (the raw bytes) — the manual fixes the meaning of exactly "*n", "*l", "*a" and liolib raises
+    "invalid format"/"invalid option" for a string that does not start with `*` or whose second byte is not
+    one of `n l a`. -/
 inductive Fmt where
   | count (n : Nat)
   | line
   | all
+  | num
+  | str (s : Bytes)
 deriving DecidableEq, Repr, Inhabited
 
 inductive Whence where
@@ -89,7 +94,151 @@ def openStream (bytes : Bytes) (m : Mode) : Stream :=
   { bytes := if m.trunc then [] else bytes, cur := 0, canRead := m.canRead, canWrite := m.canWrite,
     app := m.app, closed := false }
 
-/-- one read format at the cursor: the value (none = end of file) and the new cursor. -/
+/-! ### `*n`: reading a numeral
+
+  Lua 5.1 liolib `read_number` is `fscanf(f, "%lf", &d)`: skip white space (`isspace`, "C" locale), then read the
+  longest sequence of input characters that is a prefix of a matching subject sequence of `strtod`
+  (ISO C 7.19.6.2 §9, §12 `a,e,f,g`; 7.20.1.3).  The meaning is fixed here for the inputs on which these rules leave
+  no room: white space, then a decimal numeral `[sign] (D+ [. D*] | . D+) [(e|E) [sign] D+]` or a hexadecimal
+  integer `[sign] 0(x|X) H+` (the numerals of the Lua 5.1 lexer / C99 `strtod`), FOLLOWED BY white space or the end of
+  the file, with a value that rounds to a finite double; white space up to the end of the file (input failure: nil);
+  white space and then an ASCII byte that cannot begin any `strtod` subject (matching failure: nil, the byte is not
+  consumed; bytes ≥ 0x80 are left out: `isspace` depends on the locale).  Everything else (`1e+x`, `0x1p4`, `inf`, `1_0`, `12abc`, overflow …) is `unspecified`: C89/C99 and
+  fscanf's one-character push-back limit make the outcome platform-dependent. -/
+
+def isBlank (c : UInt8) : Bool := c == 32 || (9 ≤ c && c ≤ 13)
+def isDigit (c : UInt8) : Bool := 48 ≤ c && c ≤ 57
+def isHexDigit (c : UInt8) : Bool := isDigit c || (97 ≤ c && c ≤ 102) || (65 ≤ c && c ≤ 70)
+def isSign (c : UInt8) : Bool := c == 43 || c == 45
+
+/-- an optional sign and the rest -/
+def spanSign : Bytes → Bytes × Bytes
+  | [] => ([], [])
+  | c :: r => if isSign c then ([c], r) else ([], c :: r)
+
+/-- the fraction part `. D*` at the head of `s` (empty if `s` does not start with a period), and the rest -/
+def spanFrac : Bytes → Bytes × Bytes
+  | [] => ([], [])
+  | c :: t => if c = 46 then (c :: t.takeWhile isDigit, t.dropWhile isDigit) else ([], c :: t)
+
+/-- the exponent part `(e|E) [sign] D+` at the head of `s` (empty if there is no complete one), and the rest -/
+def spanExp : Bytes → Bytes × Bytes
+  | [] => ([], [])
+  | e :: t =>
+    if e = 101 ∨ e = 69 then
+      let d3 := (spanSign t).2.takeWhile isDigit
+      if d3 = [] then ([], e :: t) else (e :: (spanSign t).1 ++ d3, (spanSign t).2.dropWhile isDigit)
+    else ([], e :: t)
+
+/-- the longest prefix of `s` that is a decimal numeral, and what follows it. -/
+def decNumeral (s : Bytes) : Option (Bytes × Bytes) :=
+  let sg := (spanSign s).1
+  let s1 := (spanSign s).2
+  let d1 := s1.takeWhile isDigit
+  let fr := (spanFrac (s1.dropWhile isDigit)).1
+  let s3 := (spanFrac (s1.dropWhile isDigit)).2
+  if d1 = [] ∧ fr.length ≤ 1 then none
+  else some (sg ++ d1 ++ fr ++ (spanExp s3).1, (spanExp s3).2)
+
+/-- the longest prefix of `s` that is a hexadecimal integer `[sign] 0(x|X) H+`, and what follows it. -/
+def hexNumeral (s : Bytes) : Option (Bytes × Bytes) :=
+  match (spanSign s).2 with
+  | z :: x :: t =>
+    if z = 48 ∧ (x = 120 ∨ x = 88) ∧ t.takeWhile isHexDigit ≠ [] then
+      some ((spanSign s).1 ++ z :: x :: t.takeWhile isHexDigit, t.dropWhile isHexDigit)
+    else none
+  | _ => none
+
+def numeralPrefix (s : Bytes) : Option (Bytes × Bytes) :=
+  match hexNumeral s with
+  | some r => some r
+  | none => decNumeral s
+
+/-- the real number a numeral denotes: `(-1)^neg * mant * 10^e10`. -/
+structure NumVal where
+  neg : Bool
+  mant : Nat
+  e10 : Int
+deriving DecidableEq, Repr, Inhabited
+
+def digitsVal (ds : Bytes) : Nat := ds.foldl (fun a c => a * 10 + (c.toNat - 48)) 0
+def hexDigitVal (c : UInt8) : Nat :=
+  if isDigit c then c.toNat - 48 else if 97 ≤ c then c.toNat - 87 else c.toNat - 55
+def hexDigitsVal (ds : Bytes) : Nat := ds.foldl (fun a c => a * 16 + hexDigitVal c) 0
+
+def expVal (ex : Bytes) : Int :=
+  match ex with
+  | [] => 0
+  | _ :: t => if (spanSign t).1 = [45] then - (digitsVal (spanSign t).2 : Int) else (digitsVal (spanSign t).2 : Int)
+
+/-- value of a numeral as `numeralPrefix` delivers it. -/
+def numValue (tok : Bytes) : NumVal :=
+  let neg := (spanSign tok).1 = [45]
+  let s1 := (spanSign tok).2
+  match hexNumeral tok with
+  | some _ => { neg := neg, mant := hexDigitsVal (s1.drop 2), e10 := 0 }
+  | none =>
+    let d1 := s1.takeWhile isDigit
+    let fr := (spanFrac (s1.dropWhile isDigit)).1
+    let s3 := (spanFrac (s1.dropWhile isDigit)).2
+    { neg := neg, mant := digitsVal (d1 ++ fr.drop 1), e10 := expVal (spanExp s3).1 - (fr.drop 1).length }
+
+/-- IEEE 754 binary64: the reals that round (to nearest) to a finite double are those of magnitude below
+    `(2^54 − 1) · 2^970` (half an ulp above the largest finite double). -/
+def roundsFinite (v : NumVal) : Bool :=
+  let T : Nat := (2 ^ 54 - 1) * 2 ^ 970
+  if v.mant = 0 then true
+  else if v.e10 > 400 then false
+  else if v.e10 ≥ 0 then decide (v.mant * 10 ^ v.e10.toNat < T)
+  -- 10^k > 2^k > mant as soon as k exceeds the binary length of mant: the value is below 1
+  else if (-v.e10).toNat > Nat.log2 v.mant then true
+  else decide (v.mant < T * 10 ^ (-v.e10).toNat)
+
+inductive NumClass where
+  | value (ws tok : Bytes)     -- white space, a numeral, then white space or the end of the file
+  | eof (ws : Bytes)           -- nothing but white space up to the end of the file: nil
+  | nomatch (ws : Bytes)       -- white space, then a byte that cannot begin a numeral: nil, the byte stays
+  | unspecified
+deriving DecidableEq, Repr, Inhabited
+
+/-- can this byte begin a `strtod` subject sequence (digits, sign, period, `inf`/`nan`)? -/
+def canStartNumeral (c : UInt8) : Bool :=
+  isDigit c || isSign c || c == 46 || c == 110 || c == 78 || c == 105 || c == 73
+
+/-- what `*n` means on the text `S` at the cursor. -/
+def numClass (S : Bytes) : NumClass :=
+  let ws := S.takeWhile isBlank
+  match S.dropWhile isBlank with
+  | [] => .eof ws
+  | c :: t =>
+    match numeralPrefix (c :: t) with
+    | some (tok, rest) =>
+      if (rest = [] ∨ (rest.head?.map isBlank = some true)) ∧ roundsFinite (numValue tok) then .value ws tok
+      else .unspecified
+    | none => if canStartNumeral c || c ≥ 128 then .unspecified else .nomatch ws
+
+def numSpecified (S : Bytes) : Bool := numClass S ≠ .unspecified
+
+/-! ### format strings -/
+
+inductive FmtClass where
+  | is (f : Fmt)       -- a format the manual defines
+  | invalid            -- liolib raises "invalid format" / "invalid option"
+  | unspecified        -- "*l…", "*a…", "*n…" with trailing bytes: the manual is silent (liolib looks at two bytes only)
+deriving DecidableEq, Repr, Inhabited
+
+def classify : Fmt → FmtClass
+  | .str s =>
+    match s with
+    | [a, c] =>
+      if a ≠ 42 then .invalid
+      else if c = 110 then .is .num else if c = 108 then .is .line else if c = 97 then .is .all else .invalid
+    | a :: c :: _ => if a = 42 ∧ (c = 110 ∨ c = 108 ∨ c = 97) then .unspecified else .invalid
+    | _ => .invalid
+  | f => .is f
+
+/-- one read format at the cursor: the value (none = nil: end of file, or no numeral) and the new cursor.
+    A number is represented by its numeral (the bytes read); its value is `numValue`. -/
 def readFmt (b : Bytes) (cur : Nat) : Fmt → Option Bytes × Nat
   | .count 0 => (if cur < b.length then some [] else none, cur)
   | .count n =>
@@ -102,14 +251,40 @@ def readFmt (b : Bytes) (cur : Nat) : Fmt → Option Bytes × Nat
       let l := rest.takeWhile (· ≠ 10)
       (some l, cur + l.length + (if l.length < rest.length then 1 else 0))
   | .all => (some (b.drop cur), max cur b.length)
+  | .num =>
+    match numClass (b.drop cur) with
+    | .value ws tok => (some tok, cur + ws.length + tok.length)
+    | .eof ws => (none, cur + ws.length)
+    | .nomatch ws => (none, cur + ws.length)
+    | .unspecified => (none, cur)                 -- meaningless: see `readSpecified`
+  | .str _ => (none, cur)                         -- never consulted: `readFmts` goes through `classify`
 
-/-- formats are served left to right; the first end-of-file ends the call (Lua manual: "returns nil on failure"). -/
-def readFmts (b : Bytes) (cur : Nat) : List Fmt → List (Option Bytes) × Nat
-  | [] => ([], cur)
+/-- formats are served left to right; the first nil ends the call (Lua manual: "returns nil on failure");
+    an invalid format raises when it is reached.  Result: values, cursor, raised. -/
+def readFmts (b : Bytes) (cur : Nat) : List Fmt → List (Option Bytes) × Nat × Bool
+  | [] => ([], cur, false)
   | f :: fs =>
-    match readFmt b cur f with
-    | (none, c) => ([none], c)
-    | (some v, c) => let (r, c') := readFmts b c fs; (some v :: r, c')
+    match classify f with
+    | .invalid => ([], cur, true)
+    | .unspecified => ([], cur, true)             -- meaningless: see `readSpecified`
+    | .is g =>
+      match readFmt b cur g with
+      | (none, c) => ([none], c, false)
+      | (some v, c) => let r := readFmts b c fs; (some v :: r.1, r.2.1, r.2.2)
+
+/-- is the meaning of this call fixed?  Every format string is one the manual defines or one liolib rejects, and
+    every `*n` that is reached meets a text whose reading is fixed. -/
+def readSpecified (b : Bytes) (cur : Nat) : List Fmt → Bool
+  | [] => true
+  | f :: fs =>
+    match classify f with
+    | .invalid => true
+    | .unspecified => false
+    | .is g =>
+      (g ≠ .num || numSpecified (b.drop cur)) &&
+      (match readFmt b cur g with
+       | (none, _) => true
+       | (some _, c) => readSpecified b c fs)
 
 def seekTarget (s : Stream) (w : Whence) (d : Int) : Int :=
   (match w with | .set => 0 | .cur => (s.cur : Int) | .«end» => (s.bytes.length : Int)) + d
@@ -129,7 +304,9 @@ def step (s : Stream) : Op → Stream × Res
     | .read fs =>
       if !s.canRead then (s, .fail)
       -- no format = "*l" (Lua manual §5.7 file:read)
-      else let (r, c) := readFmts s.bytes s.cur (if fs = [] then [.line] else fs); ({ s with cur := c }, .vals r)
+      else
+        let r := readFmts s.bytes s.cur (if fs = [] then [.line] else fs)
+        ({ s with cur := r.2.1 }, if r.2.2 then .raise else .vals r.1)
     -- (what `lines` yields on a handle that cannot be read is not fixed by the property — Lua 5.1 returns an
     --  iterator whose first call raises; "no iterator" is chosen here and the correspondence accepts both)
     | .lines => if !s.canRead then (s, .nothing) else (s, .ok)
@@ -173,5 +350,106 @@ def reopenOk (closed : Bool) : List Op → Bool
   | .reopen _ :: os => closed && reopenOk false os
   | .close :: os => reopenOk true os
   | _ :: os => reopenOk closed os
+
+/-! ### The `io` library level: default files, `io.lines`, `io.type` (Lua 5.1 manual §5.7)
+
+  One file, one handle at a time (as above).  `io.input(file | name)` / `io.output(file | name)` make a handle the
+  default input / output; `io.read`, `io.lines()` act on the default input, `io.write`, `io.flush`, `io.close()`
+  on the default output — as the corresponding methods of that handle.  `io.input(name)` opens in mode "r",
+  `io.output(name)` in mode "w" (liolib `g_iofile`), `io.lines(name)` in mode "r" and its iterator closes the
+  file when it reaches the end.  A default slot can also hold one of the standard files (outside this Spec) or
+  an older handle of the file, which is closed by then. -/
+
+inductive Slot where
+  | std      -- stdin / stdout: outside the Spec
+  | cur      -- the current handle of the file
+  | stale    -- an earlier handle of the file (closed: a new one is opened only after `close`)
+deriving DecidableEq, Repr, Inhabited
+
+inductive WOp where
+  | h (op : Op)                 -- a method of the current handle (`f:read`, `f:write`, …; `reopen` = `io.open`)
+  | ioInput | ioOutput          -- `io.input(f)` / `io.output(f)`, f = the current handle
+  | ioInputName | ioOutputName  -- `io.input(path)` / `io.output(path)`: a new handle (only after `close`)
+  | ioLinesName                 -- `io.lines(path)`: a new handle (only after `close`) owned by the iterator
+  | ioRead (fs : List Fmt)
+  | ioWrite (s : Bytes)
+  | ioFlush
+  | ioClose                     -- `io.close()`: closes the default output
+  | ioLines                     -- `io.lines()`: an iterator over the default input
+  | ioIter (auto : Bool)        -- one call of an iterator over the current handle made by `io.lines(path)` (`auto`:
+                                --   closes the file at the end) or by `io.lines()` (does not)
+  | ioType                      -- `io.type(f)`
+  | toStr                       -- `tostring(f)` (the address Lua 5.1 prints for an open file is left out)
+deriving DecidableEq, Repr, Inhabited
+
+structure WStream where
+  s : Stream := {}
+  defIn : Slot := .std
+  defOut : Slot := .std
+deriving DecidableEq, Repr, Inhabited
+
+def Slot.age : Slot → Slot
+  | .cur => .stale
+  | x => x
+
+/-- a new handle on the file replaces the current one -/
+def WStream.newHandle (w : WStream) (s' : Stream) (setIn setOut : Bool) : WStream :=
+  { s := s', defIn := if setIn then .cur else w.defIn.age, defOut := if setOut then .cur else w.defOut.age }
+
+/-- an operation on the handle a default slot refers to -/
+def WStream.onSlot (w : WStream) (sl : Slot) (op : Op) : WStream × Res :=
+  match sl with
+  | .cur => ({ w with s := (step w.s op).1 }, (step w.s op).2)
+  | .stale => (w, .raise)        -- a closed handle: raises, nothing changes
+  | .std => (w, .nothing)        -- outside the Spec
+
+def strFile : Bytes := [102, 105, 108, 101]                                        -- "file"
+def strClosedFile : Bytes := [99, 108, 111, 115, 101, 100, 32, 102, 105, 108, 101] -- "closed file"
+def strFileClosed : Bytes := [102, 105, 108, 101, 32, 40, 99, 108, 111, 115, 101, 100, 41] -- "file (closed)"
+
+def wstep (w : WStream) : WOp → WStream × Res
+  | .h (.reopen m) => (w.newHandle (openStream w.s.bytes m) false false, .ok)
+  | .h op => w.onSlot .cur op
+  | .ioInput => if w.s.closed then (w, .raise) else ({ w with defIn := .cur }, .ok)
+  | .ioOutput => if w.s.closed then (w, .raise) else ({ w with defOut := .cur }, .ok)
+  | .ioInputName => (w.newHandle (openStream w.s.bytes .r) true false, .ok)
+  | .ioOutputName => (w.newHandle (openStream w.s.bytes .w) false true, .ok)
+  | .ioLinesName => (w.newHandle (openStream w.s.bytes .r) false false, .ok)
+  | .ioRead fs => w.onSlot w.defIn (.read fs)
+  | .ioWrite d => w.onSlot w.defOut (.write d)
+  | .ioFlush => w.onSlot w.defOut .flush
+  | .ioClose => w.onSlot w.defOut .close
+  | .ioLines => w.onSlot w.defIn .lines
+  | .ioIter auto =>
+    let r := step w.s .iter
+    if auto ∧ r.2 = .vals [none] then ({ w with s := { r.1 with closed := true } }, r.2)
+    else ({ w with s := r.1 }, r.2)
+  | .ioType => (w, .vals [some (if w.s.closed then strClosedFile else strFile)])
+  | .toStr => (w, .vals [some (if w.s.closed then strFileClosed else strFile)])
+
+def wrun (w : WStream) : List WOp → WStream × List Res
+  | [] => (w, [])
+  | o :: os => let r := wstep w o; let rs := wrun r.1 os; (rs.1, r.2 :: rs.2)
+
+/-- the operation a world operation performs on the CURRENT handle, if any (for the ISO C discipline and the
+    one-handle-at-a-time rule, which speak about the handle). -/
+def effOp (w : WStream) : WOp → Option Op
+  | .h op => some op
+  | .ioInputName | .ioLinesName => some (.reopen .r)
+  | .ioOutputName => some (.reopen .w)
+  | .ioRead fs => if w.defIn = .cur then some (.read fs) else none
+  | .ioWrite d => if w.defOut = .cur then some (.write d) else none
+  | .ioFlush => if w.defOut = .cur then some .flush else none
+  | .ioClose => if w.defOut = .cur then some .close else none
+  | .ioLines => if w.defIn = .cur then some .lines else none
+  | .ioIter _ => some .iter
+  | .ioInput | .ioOutput | .ioType | .toStr => none
+
+/-- the default slot an operation goes through must hold a handle of the file (not stdin/stdout). -/
+def slotOk (w : WStream) : WOp → Bool
+  | .ioRead _ | .ioLines => w.defIn ≠ .std
+  | .ioWrite _ | .ioFlush | .ioClose => w.defOut ≠ .std
+  | _ => true
+
 
 end GLua.FileSpec
